@@ -193,6 +193,9 @@ def build(case, full, budget=None, G=None, extra=None):
     R0 = [oracles.tolabel(u) for u in case.get('R0') or []]
     tmin, tmax = case['tmin'], tmax_of(case)
     kw = dict(tmin=tmin, tmax=tmax, return_full_data=full)
+    if case.get('sim_kwargs'):
+        # pass-through options for the returned Simulation_Investigation (caller-owned dict, must come back untouched)
+        kw['sim_kwargs'] = {'tex': False, 'pos': {oracles.tolabel(u): (i, -i) for i, u in enumerate(case['gc']['nodes'])}}
     if extra:
         kw.update(extra)
     if KIND[sim] != 'generic' and case.get('use_rho') is not None:
@@ -305,9 +308,9 @@ def sim_case(draw, sims=SIMS, nmax=25, labels=('int', 'perm', 'str', 'tuple'), f
     tmin = draw(st.sampled_from([0, 0, -1.5, 2, 2.5]))
     disc = sim in DISCRETE
     if kind == 'SIS' or sim == 'Gillespie_complex_contagion' or (sim == 'Gillespie_simple_contagion'):
-        tmax = tmin + draw(st.sampled_from([1, 2, 2.5, 4] if not disc else [1, 2, 3, 2.5]))
+        tmax = tmin + draw(st.sampled_from([1, 2, 2.5, 4, 4, 2 ** -20] if not disc else [1, 2, 3, 2.5]))
     else:
-        tmax = draw(st.sampled_from(['inf', 'inf', tmin + 1, tmin + 2, tmin + 2.5, tmin + 4]))
+        tmax = draw(st.sampled_from(['inf', 'inf', tmin + 1, tmin + 2, tmin + 2.5, tmin + 4] + ([] if disc else [tmin + 2 ** -20])))
     case = {'sim': sim, 'gc': gc, 'tau': draw(gen.rates), 'gamma': draw(gen.rates),
             'p': draw(st.one_of(st.sampled_from([0.0, 1.0, 0.5]), st.floats(0.01, 0.99))),
             'ew': None, 'nw': None, 'I0': I0, 'R0': R0, 'tmin': tmin, 'tmax': tmax,
@@ -319,6 +322,8 @@ def sim_case(draw, sims=SIMS, nmax=25, labels=('int', 'perm', 'str', 'tuple'), f
             case['ew'] = list(gc['ew'])[0]
         if draw(st.booleans()):
             case['nw'] = list(gc['nw'])[0]
+    if draw(st.integers(0, 4)) == 0:
+        case['sim_kwargs'] = True
     if sim == 'discrete_SIR' and draw(st.integers(0, 2)) == 0:
         case['rec_steps'] = [draw(st.integers(1, 3)) for _ in nodes]
     if sim in ('fast_nonMarkov_SIR', 'fast_nonMarkov_SIS'):
